@@ -1,21 +1,22 @@
-"""T1 plug-in for C14: the suffix registrations and the shape of every unpacker's close().
+"""T1 plug-in for C14: the suffix registrations, the registration rule and the shape of every unpacker's close().
 
-Gen/RegistryParams.v:
+Gen/RegistryParams.v has three independent parts; a part whose source shape is not recognised keeps the value it
+has in the committed coq/Gen/RegistryParams.pinned (the run then relies on the correspondence check for it), and
+the header comment of the generated file says which parts came from the source:
   registrations - the @file_registry.file_suffix(...) decorators of src/stingray/workbook.py followed by those of
                   src/stingray/implementations.py (= import order), each as (list of suffix strings, class id)
+  later_wins    - WBFileRegistry.file_suffix stores with `self.suffix_map[name] = cls` (true) or with
+                  `self.suffix_map.setdefault(name, cls)` (false) in a loop over the names
   close_shape   - for each of the eight workbook classes (id): (guarded, closes, deletes) read from the close() method
-                  of the unpacker class bound in the workbook's __init__ (self.unpacker = X()):
+                  of the unpacker class bound in the workbook's __init__ (self.unpacker = X()), per class:
                     guarded: the body is under `if hasattr(self, "the_file") and self.the_file:`
                     closes : the body calls self.the_file.close()
                     deletes: the body executes `del self.the_file`
-The generator also insists on the shapes the model takes for granted: WBFileRegistry.file_suffix stores with
-`self.suffix_map[name] = cls` in a loop over the names, open_workbook looks the suffix up with a subscript inside
-try/except KeyError -> raise NotImplementedError and only then calls cls(source), Workbook.__exit__ is `self.close()`,
-each workbook class's close() is `self.unpacker.close()`.  Any other shape raises Unrecognised: the pinned text is
-used and the run relies on the correspondence check.
 """
 import ast
-from translate import Unrecognised, _parse
+import os
+import re
+from translate import Unrecognised, _parse, GEN as GEN_DIR
 
 # class name -> id used on the wire and in coq/Model/Lifecycle.v
 CLASS_IDS = {
@@ -95,12 +96,12 @@ def _registrations(tree):
     return regs
 
 
-def _check_registry(tree):
+def _later_wins(tree):
     reg = [c for c in _classes(tree) if c.name == "WBFileRegistry"]
     if len(reg) != 1:
         raise Unrecognised("class WBFileRegistry not found")
     reg = reg[0]
-    # file_suffix: def concrete_decorator(cls): for name in name_list: self.suffix_map[name] = cls ; return cls
+    # file_suffix: def concrete_decorator(cls): for name in name_list: <store> ; return cls
     fs = _method(reg, "file_suffix")
     if fs is None or fs.args.vararg is None:
         raise Unrecognised("file_suffix(*names) not found")
@@ -114,57 +115,23 @@ def _check_registry(tree):
         raise Unrecognised("concrete_decorator body shape")
     loop, cls_arg = ib[0], inner.args.args[0].arg
     if not (isinstance(loop.iter, ast.Name) and loop.iter.id == fs.args.vararg.arg and isinstance(loop.target, ast.Name)
-            and not loop.orelse and len(loop.body) == 1 and isinstance(loop.body[0], ast.Assign)):
+            and not loop.orelse and len(loop.body) == 1):
         raise Unrecognised("registration loop shape")
-    asg = loop.body[0]
-    t = asg.targets[0]
-    if not (len(asg.targets) == 1 and isinstance(t, ast.Subscript) and _is_self_attr(t.value, "suffix_map")
-            and isinstance(t.slice, ast.Name) and t.slice.id == loop.target.id
-            and isinstance(asg.value, ast.Name) and asg.value.id == cls_arg):
-        raise Unrecognised("registration is not self.suffix_map[name] = cls")
-    if not (isinstance(ib[1].value, ast.Name) and ib[1].value.id == cls_arg):
-        raise Unrecognised("decorator does not return the class")
-    # open_workbook: try: cls = self.suffix_map[source.suffix] except KeyError: raise NotImplementedError(...) ; return cls(source)
-    ow = _method(reg, "open_workbook")
-    if ow is None:
-        raise Unrecognised("open_workbook not found")
-    body = _strip_doc(ow.body)
-    if not (len(body) == 2 and isinstance(body[0], ast.Try) and isinstance(body[1], ast.Return)):
-        raise Unrecognised("open_workbook body shape")
-    tr, ret = body
-    src_arg = ow.args.args[1].arg if len(ow.args.args) == 2 else None
-    ok = (src_arg and len(tr.body) == 1 and isinstance(tr.body[0], ast.Assign) and len(tr.body[0].targets) == 1
-          and isinstance(tr.body[0].targets[0], ast.Name) and not tr.orelse and not tr.finalbody and len(tr.handlers) == 1)
-    if not ok:
-        raise Unrecognised("open_workbook try shape")
-    var = tr.body[0].targets[0].id
-    v = tr.body[0].value
-    if not (isinstance(v, ast.Subscript) and _is_self_attr(v.value, "suffix_map") and isinstance(v.slice, ast.Attribute)
-            and v.slice.attr == "suffix" and isinstance(v.slice.value, ast.Name) and v.slice.value.id == src_arg):
-        raise Unrecognised("lookup is not self.suffix_map[source.suffix]")
-    h = tr.handlers[0]
-    if not (isinstance(h.type, ast.Name) and h.type.id == "KeyError" and len(h.body) == 1 and isinstance(h.body[0], ast.Raise)):
-        raise Unrecognised("handler shape")
-    exc = h.body[0].exc
-    exc_name = exc.func if isinstance(exc, ast.Call) else exc
-    if not (isinstance(exc_name, ast.Name) and exc_name.id == "NotImplementedError"):
-        raise Unrecognised("handler does not raise NotImplementedError")
-    r = ret.value
-    if not (isinstance(r, ast.Call) and isinstance(r.func, ast.Name) and r.func.id == var and len(r.args) == 1
-            and isinstance(r.args[0], ast.Name) and r.args[0].id == src_arg and not r.keywords):
-        raise Unrecognised("open_workbook does not return cls(source)")
-    # Workbook.__exit__ = self.close() ; Workbook.close = self.unpacker.close()
-    wb = [c for c in _classes(tree) if c.name == "Workbook"]
-    if len(wb) != 1:
-        raise Unrecognised("class Workbook not found")
-    ex = _method(wb[0], "__exit__")
-    if ex is None or [1 for s in _strip_doc(ex.body) if not _is_call_self_method(s, ["close"])] or len(_strip_doc(ex.body)) != 1:
-        raise Unrecognised("Workbook.__exit__ is not `self.close()`")
-    en = _method(wb[0], "__enter__")
-    eb = _strip_doc(en.body) if en else []
-    if not (len(eb) == 1 and isinstance(eb[0], ast.Return) and isinstance(eb[0].value, ast.Name) and eb[0].value.id == "self"):
-        raise Unrecognised("Workbook.__enter__ is not `return self`")
-    _check_wb_close(wb[0], required=True)
+    st = loop.body[0]
+    name_var = loop.target.id
+    if isinstance(st, ast.Assign):
+        t = st.targets[0]
+        if (len(st.targets) == 1 and isinstance(t, ast.Subscript) and _is_self_attr(t.value, "suffix_map")
+                and isinstance(t.slice, ast.Name) and t.slice.id == name_var
+                and isinstance(st.value, ast.Name) and st.value.id == cls_arg):
+            return True
+    if isinstance(st, ast.Expr) and isinstance(st.value, ast.Call):
+        c = st.value
+        if (isinstance(c.func, ast.Attribute) and c.func.attr == "setdefault" and _is_self_attr(c.func.value, "suffix_map")
+                and len(c.args) == 2 and not c.keywords and isinstance(c.args[0], ast.Name) and c.args[0].id == name_var
+                and isinstance(c.args[1], ast.Name) and c.args[1].id == cls_arg):
+            return False
+    raise Unrecognised("registration statement shape")
 
 
 def _check_wb_close(cls, required):
@@ -222,35 +189,83 @@ def _close_shape(cls):
     return guarded, closes, deletes
 
 
+def _pinned():
+    try:
+        text = open(os.path.join(GEN_DIR, "RegistryParams.pinned")).read()
+    except OSError:
+        raise Unrecognised("no pinned file to fall back to")
+    m = re.search(r"Definition registrations : list \(list \(list N\) \* N\) := \[\n(.*?)\]\.\n", text, re.S)
+    lw = re.search(r"Definition later_wins : bool := (true|false)\.", text)
+    shapes = {int(a): (b, c, d) for a, b, c, d in
+              re.findall(r"\((\d+), \((true|false), (true|false), (true|false)\)\)", text)}
+    if not (m and lw and len(shapes) == len(CLASS_IDS)):
+        raise Unrecognised("pinned file not understood")
+    return m.group(1), lw.group(1), shapes
+
+
 def gen_RegistryParams(src):
     trees = [_parse(src, rel) for rel in FILES]
-    _check_registry(trees[0])
-    regs = _registrations(trees[0]) + _registrations(trees[1])
-    if any(isinstance(n, ast.Attribute) and n.attr == "file_suffix" for n in ast.walk(trees[2])):
-        raise Unrecognised("registrations in schema_instance.py")
-    by_name = {}
-    for t in trees:
-        for c in _classes(t):
-            by_name.setdefault(c.name, c)
-    shapes = []
-    for name, cid in sorted(CLASS_IDS.items(), key=lambda kv: kv[1]):
-        if name not in by_name:
-            raise Unrecognised(f"class {name} not found")
-        _check_wb_close(by_name[name], required=False)
-        up = _unpacker_of(by_name[name])
-        if up not in by_name:
-            raise Unrecognised(f"unpacker class {up} not found")
-        shapes.append((cid, up, _close_shape(by_name[up])))
+    notes = []
+    pinned = None
+
+    def fallback(part, ex):
+        nonlocal pinned
+        if pinned is None:
+            pinned = _pinned()
+        notes.append(f"{part}=pinned({ex})")
+        return pinned
+
     b = lambda x: "true" if x else "false"
     s = lambda text: "[" + "; ".join(str(ord(ch)) for ch in text) + "]"
-    reg_txt = ";\n  ".join("([" + "; ".join(s(n) for n in names) + "], " + str(cid) + ")" for names, cid in regs)
-    shape_txt = ";\n  ".join(f"({cid}, ({b(g)}, {b(c)}, {b(d)}))" for cid, up, (g, c, d) in shapes)
+    # --- registrations
+    try:
+        regs = _registrations(trees[0]) + _registrations(trees[1])
+        if any(isinstance(n, ast.Attribute) and n.attr == "file_suffix" for n in ast.walk(trees[2])):
+            raise Unrecognised("registrations in schema_instance.py")
+        reg_txt = "  " + ";\n  ".join("([" + "; ".join(s(n) for n in names) + "], " + str(cid) + ")" for names, cid in regs)
+        notes.append("registrations=source")
+    except Unrecognised as ex:
+        reg_txt = fallback("registrations", ex)[0]
+    # --- registration rule
+    try:
+        lw = b(_later_wins(trees[0]))
+        notes.append("later_wins=source")
+    except Unrecognised as ex:
+        lw = fallback("later_wins", ex)[1]
+    # --- close shapes, class by class
+    by_name = {}
+    for t in trees:
+        try:
+            for c in _classes(t):
+                by_name.setdefault(c.name, c)
+        except Unrecognised:
+            pass
+    shapes = []
+    for name, cid in sorted(CLASS_IDS.items(), key=lambda kv: kv[1]):
+        try:
+            if name not in by_name:
+                raise Unrecognised(f"class {name} not found")
+            _check_wb_close(by_name[name], required=False)
+            up = _unpacker_of(by_name[name])
+            if up not in by_name:
+                raise Unrecognised(f"unpacker class {up} not found")
+            shapes.append((cid, tuple(b(x) for x in _close_shape(by_name[up]))))
+            notes.append(f"close_shape[{cid}]=source:{up}")
+        except Unrecognised as ex:
+            shapes.append((cid, fallback(f"close_shape[{cid}]", ex)[2][cid]))
+    shape_txt = ";\n  ".join(f"({cid}, ({g}, {c}, {d}))" for cid, (g, c, d) in shapes)
+    if not any(n.endswith("=source") or "=source:" in n for n in notes):
+        raise Unrecognised("nothing recognised: " + "; ".join(notes))
+    note_txt = " ".join(notes).replace("(*", "( *").replace("*)", "* )").replace('"', "'")
     return (
         "(* GENERATED by harness/t1_c14.py from src/stingray/workbook.py, implementations.py, schema_instance.py -- do not edit *)\n"
+        f"(* parts: {note_txt} *)\n"
         "From Coq Require Import NArith List.\nImport ListNotations.\nOpen Scope N_scope.\n"
         "(* decorators @file_registry.file_suffix(...) in import order: (suffixes as code points, class id) *)\n"
-        f"Definition registrations : list (list (list N) * N) := [\n  {reg_txt}].\n"
-        "(* class id -> (guarded, closes, deletes) of the unpacker's close(): " + ", ".join(f"{cid}={up}" for cid, up, _ in shapes) + " *)\n"
+        f"Definition registrations : list (list (list N) * N) := [\n{reg_txt}].\n"
+        "(* file_suffix stores with suffix_map[name] = cls (true) or suffix_map.setdefault(name, cls) (false) *)\n"
+        f"Definition later_wins : bool := {lw}.\n"
+        "(* class id -> (guarded, closes, deletes) of the unpacker's close() *)\n"
         f"Definition close_shape : list (N * (bool * bool * bool)) := [\n  {shape_txt}].\n"
     )
 
